@@ -50,6 +50,13 @@ func c20Gen(o *vk.Out) mgrIn {
 	if r.Intn(3) == 0 {
 		in.Start = []string{stateCandidate, stateMaintenance, stateFirstRun, stateLost}[r.Intn(4)]
 	}
+	if r.Intn(4) == 0 {
+		// a stale optimisation record of a host that was removed, next to a healthy cluster
+		in.OptReg = []string{[]string{"h9", "h2", "h7"}[r.Intn(3)]}
+		if r.Intn(2) == 0 {
+			in.Nodes[0].Down, in.Nodes[0].Health, in.Master, in.Maint, in.Switch = false, "", "h1", nil, nil
+		}
+	}
 	in.Iter += 2
 	return in
 }
